@@ -63,3 +63,17 @@ package api
 //@   requires ns != nil
 //@   modifies nothing
 //@   ensures result == (epoch > ns.ElectionEligibleAfter)
+
+// ---- active deployment of a runtime (C14: elected workers carry the required version) ----
+
+//@ func Runtime.ActiveDeployment
+//@   props C14
+//@   bodyonly
+//@   requires r != nil && (forall j int :: 0 <= j && j < len(r.Deployments) ==> r.Deployments[j] != nil)
+//@   modifies nothing
+//@   loop 1 invariant activeDeployment == nil ==> (forall j int :: 0 <= j && j < idx() ==> r.Deployments[j].ValidFrom > now)
+//@   loop 1 invariant activeDeployment != nil ==> activeDeployment.ValidFrom <= now && (exists k int :: 0 <= k && k < idx() && r.Deployments[k] == activeDeployment)
+//@   loop 1 invariant activeDeployment != nil ==> (forall j int :: 0 <= j && j < idx() && r.Deployments[j].ValidFrom <= now ==> r.Deployments[j].ValidFrom <= activeDeployment.ValidFrom)
+//@   ensures result == nil ==> (forall j int :: 0 <= j && j < len(r.Deployments) ==> r.Deployments[j].ValidFrom > now)
+//@   ensures result != nil ==> result.ValidFrom <= now && (forall j int :: 0 <= j && j < len(r.Deployments) && r.Deployments[j].ValidFrom <= now ==> r.Deployments[j].ValidFrom <= result.ValidFrom)
+//@   note the active deployment at an epoch is the one with the GREATEST activation epoch among those already valid - whatever order the descriptor lists them in (a descriptor may list them newest first) -, and none if no deployment is valid yet: this is the version elected executor workers must run (seed C14_j compared with the epoch instead of the candidate's activation epoch: the LAST listed valid deployment won)
